@@ -135,6 +135,12 @@ Qed.
 (* ---- the body of a transaction: the gaps, then the page writes ---- *)
 Definition zf_ops (zf : list (N * pg)) : list op := map (fun kv => OZeroFill (fst kv) (snd kv)) zf.
 Definition wr_ops (wr : list (N * pg)) : list op := map (fun kv => OWrite (fst kv) (snd kv)) wr.
+(* what a connection does to the database file inside one transaction: page writes (new content; pre-images put back by a
+   rollback) and, when it rolls back after a spill that had grown the file, the cut back to the old size *)
+Inductive act := AWrite (p : N) (q : pg) | ACut.
+Definition act_ops (old : N) (acts : list act) : list op :=
+  map (fun a => match a with AWrite p q => OWrite p q | ACut => OTruncate old end) acts.
+Definition act_ok (a : act) : Prop := match a with AWrite p q => 1 <= p /\ pg_wal q = false | ACut => True end.
 
 Lemma run_group_app s a b : run_group s (a ++ b) =
   match run_group s a with (0, s') => run_group s' b | r => r end.
@@ -281,6 +287,52 @@ Proof.
       unfold dbc, db_page_chk, nthN. apply nth_overflow. unfold lenN in Hge. lia.
 Qed.
 
+(* inside a transaction: the cut back to the old size when SQLite rolls back after a spill that had grown the file *)
+Lemma mid_truncate s0 s s' : Mid s0 s -> op_truncate s (pageN s) = (Done, s') -> Mid s0 s'.
+Proof.
+  intros M H. destruct M. unfold op_truncate in H. rewrite N.eqb_refl in H. cbn [negb] in H. inversion H; subst s'. clear H.
+  unfold truncate_db, reset_after.
+  set (sf := with_file s (firstn (N.to_nat (pageN s)) (dbfile s))).
+  assert (CacheOK sf) as HCf by exact m_cache0. assert (LockZero sf) as HLf by exact m_lz0.
+  destruct (clear_from_spec (length (chk_pages sf)) sf (pageN s) ltac:(lia) HCf HLf m_lk2) as [C2 [L2 [E2 [W2 [M2 [P2 [T2 [K2 [F2 D2]]]]]]]]].
+  set (s2 := clear_from sf (length (chk_pages sf)) (pageN s)) in *. cbn zeta in *.
+  assert (Hfh : forall p, 1 <= p -> file_h s2 p = if p <=? pageN s then file_h s p else 0).
+  { intros p Hp. unfold file_h, file_pg. rewrite F2. change (dbfile sf) with (firstn (N.to_nat (pageN s)) (dbfile s)).
+    fold (h_at (firstn (N.to_nat (pageN s)) (dbfile s)) (N.to_nat (p - 1))). rewrite firstn_h.
+    fold (h_at (dbfile s) (N.to_nat (p - 1))).
+    destruct (N.leb_spec p (pageN s)), (Nat.ltb_spec (N.to_nat (p - 1)) (N.to_nat (pageN s))); try lia; reflexivity. }
+  change (lockpg sf) with (lockpg s) in *. change (writeable sf) with (writeable s) in *. change (wal_mode sf) with (wal_mode s) in *.
+  change (pageN sf) with (pageN s) in *. change (txid sf) with (txid s) in *. change (chk sf) with (chk s) in *.
+  constructor.
+  - congruence.
+  - congruence.
+  - congruence.
+  - rewrite E2. assumption.
+  - congruence.
+  - congruence.
+  - congruence.
+  - assumption.
+  - assumption.
+  - intros x Hx Hnl. rewrite E2 in Hnl. rewrite P2. rewrite D2 by assumption. change (dbc sf x) with (dbc s x). rewrite Hfh by assumption.
+    destruct (N.ltb_spec (pageN s) x) as [Hgt|Hle].
+    + right. split; [assumption|reflexivity].
+    + destruct (N.leb_spec x (pageN s)); [|lia]. destruct (m_truth0 x Hx Hnl) as [E|[Hgt _]]; [left; exact E|lia].
+  - intros q Hq. apply m_p2. unfold file_pg in *. rewrite F2 in Hq. change (dbfile sf) with (firstn (N.to_nat (pageN s)) (dbfile s)) in Hq.
+    change (N.to_nat (1 - 1)) with 0%nat in *. destruct (N.to_nat (pageN s)); [discriminate|]. destruct (dbfile s); [discriminate|exact Hq].
+Qed.
+
+Lemma run_acts s0 : forall acts s s', Mid s0 s -> Forall act_ok acts ->
+  run_group s (act_ops (pageN s0) acts) = (0, s') -> Mid s0 s'.
+Proof.
+  induction acts as [|a acts IH]; intros s s' M Hok H; cbn [act_ops map run_group] in H.
+  - inversion H; subst. exact M.
+  - inversion Hok as [|? ? Ha Hok']; subst. destruct a as [p q|]; cbn [step] in H.
+    + destruct Ha as [Hp Hw]. destruct (mid_write s0 s p q M Hp Hw) as [M1 E1].
+      destruct (op_write_page s p q) as [oc s1]. cbn [fst snd] in *. subst oc. apply (IH s1 s' M1 Hok' H).
+    + destruct (op_truncate s (pageN s0)) as [oc s1] eqn:Et. destruct oc; cbn [ocode] in H; try (inversion H; fail).
+      rewrite <- (m_pn s0 s M) in Et. apply (IH s1 s' (mid_truncate s0 s s1 M Et) Hok' H).
+Qed.
+
 Lemma j_truncate s n s' : J s -> op_truncate s n = (Done, s') -> J s' /\ txid s' = txid s /\ pageN s' = pageN s.
 Proof.
   intros HJ H. destruct HJ. unfold op_truncate in H. destruct (N.eqb_spec n (pageN s)) as [->|Hne]; cbn [negb] in H; [|discriminate].
@@ -314,31 +366,32 @@ Qed.
 
 (* ---- histories ---- *)
 Inductive hstep :=
-| HTx (zf wr : list (N * pg)) (c : N)   (* a committed rollback-journal transaction: the gaps the file system fills (pages SQLite
-                                           never writes), the page writes in any order with any repetitions, the size in page 1 *)
+| HTx (zf : list (N * pg)) (acts : list act) (c : N)
+    (* a rollback-journal transaction that ends with the finalisation of a valid journal - a commit, or a rollback after a
+       spill: the gaps the file system fills (pages SQLite never writes), then page writes in any order with any
+       repetitions (new content, pre-images put back) and cuts back to the old size, then the size page 1 names *)
 | HTrunc (n : N).                        (* the truncate SQLite issues after a shrinking commit *)
-Definition hops (h : hstep) : list op :=
+Definition hops (s : st) (h : hstep) : list op :=
   match h with
-  | HTx zf wr c => zf_ops zf ++ wr_ops wr ++ [OCommitJournal c]
+  | HTx zf acts c => zf_ops zf ++ act_ops (pageN s) acts ++ [OCommitJournal c]
   | HTrunc n => [OTruncate n]
   end.
 (* what SQLite's pager guarantees about a transaction, relative to the state it starts in: the gaps lie beyond the old
    size and are distinct; page numbers start at 1; the database stays in rollback-journal mode *)
 Definition wf_step (s : st) (h : hstep) : Prop :=
   match h with
-  | HTx zf wr c => NoDup (map fst zf) /\ (forall p q, In (p, q) zf -> pageN s < p /\ pg_wal q = false) /\
-                   (forall p q, In (p, q) wr -> 1 <= p /\ pg_wal q = false)
+  | HTx zf acts c => NoDup (map fst zf) /\ (forall p q, In (p, q) zf -> pageN s < p /\ pg_wal q = false) /\ Forall act_ok acts
   | HTrunc _ => True
   end.
 Fixpoint run_hsteps (s : st) (hs : list hstep) : option st :=
   match hs with
   | [] => Some s
-  | h :: r => match run_group s (hops h) with (0, s') => run_hsteps s' r | _ => None end
+  | h :: r => match run_group s (hops s h) with (0, s') => run_hsteps s' r | _ => None end
   end.
 Fixpoint wf_hist (s : st) (hs : list hstep) : Prop :=
   match hs with
   | [] => True
-  | h :: r => wf_step s h /\ forall s', run_group s (hops h) = (0, s') -> wf_hist s' r
+  | h :: r => wf_step s h /\ forall s', run_group s (hops s h) = (0, s') -> wf_hist s' r
   end.
 
 Lemma run_group_one s o s' : run_group s [o] = (0, s') -> step s o = (Done, s').
@@ -346,15 +399,16 @@ Proof.
   cbn [run_group]. destruct (step s o) as [oc s1]. destruct oc; cbn [ocode]; intros H; inversion H; reflexivity.
 Qed.
 
-Lemma j_step s h s' : J s -> wf_step s h -> run_group s (hops h) = (0, s') -> J s' /\ lockpg s' = lockpg s.
+Lemma j_step s h s' : J s -> wf_step s h -> run_group s (hops s h) = (0, s') -> J s' /\ lockpg s' = lockpg s.
 Proof.
-  intros HJ Hwf H. destruct h as [zf wr c|n]; cbn [hops wf_step] in *.
-  - destruct Hwf as [Hnd [Hzf Hwr]].
+  intros HJ Hwf H. destruct h as [zf acts c|n]; cbn [hops wf_step] in *.
+  - destruct Hwf as [Hnd [Hzf Hacts]].
     destruct (run_zero_fills s zf s (j_mid s HJ) Hnd) as [s1 [E1 [M1 _]]].
     { intros p q Hin. destruct (Hzf p q Hin) as [A B]. split; [assumption|]. split; [assumption|]. apply (j_tail s HJ). assumption. }
-    rewrite run_group_app, E1 in H.
-    destruct (run_writes s wr s1 M1 Hwr) as [s2 [E2 M2]].
-    rewrite run_group_app, E2 in H. apply run_group_one in H. cbn [step] in H.
+    rewrite run_group_app, E1 in H. rewrite run_group_app in H.
+    destruct (run_group s1 (act_ops (pageN s) acts)) as [code s2] eqn:E2. destruct code; [|inversion H].
+    pose proof (run_acts s acts s1 s2 M1 Hacts E2) as M2.
+    apply run_group_one in H. cbn [step] in H.
     destruct (writeable s2 && (pageN s2 =? 0) && match dbfile s2 with [] => true | _ :: _ => false end) eqn:Einv.
     + (* nothing was written and there is no database: the journal is invalidated, nothing is published *)
       unfold op_invalidate_journal in H. inversion H; subst s'. clear H.
@@ -387,7 +441,7 @@ Theorem journal_history_invariant : forall hs s s', J s -> wf_hist s hs -> run_h
 Proof.
   induction hs as [|h r IH]; intros s s' HJ Hwf H; cbn [run_hsteps wf_hist] in *.
   - inversion H; subst. split; [exact HJ|reflexivity].
-  - destruct Hwf as [Hw Hrest]. destruct (run_group s (hops h)) as [code s1] eqn:E.
+  - destruct Hwf as [Hw Hrest]. destruct (run_group s (hops s h)) as [code s1] eqn:E.
     destruct code; [|discriminate]. destruct (j_step s h s1 HJ Hw E) as [HJ1 El1].
     destruct (IH s1 s' HJ1 (Hrest s1 eq_refl) H) as [HJ' El']. split; [exact HJ'|congruence].
 Qed.
@@ -418,24 +472,28 @@ Qed.
 (* a concrete history that meets the hypotheses (used as the non-vacuity example of Props/C04.v) *)
 Lemma journal_history_example :
   let pg h := mkPg (fl h) 0 false in
-  let hs := [HTx [] [(1, pg 11); (2, pg 12)] 2;
-             HTx [(3, pg 33); (4, pg 44)] [(1, pg 21); (5, pg 55)] 5;
-             HTx [] [(2, pg 92)] 3; HTrunc 3] in
+  let hs := [HTx [] [AWrite 1 (pg 11); AWrite 2 (pg 12)] 2;
+             HTx [(3, pg 33); (4, pg 44)] [AWrite 1 (pg 21); AWrite 5 (pg 55)] 5;
+             HTx [] [AWrite 2 (pg 77); AWrite 7 (pg 70); AWrite 2 (pg 12); ACut] 5;
+             HTx [] [AWrite 2 (pg 92)] 3; HTrunc 3] in
   wf_hist (init 2097153) hs /\
   match run_hsteps (init 2097153) hs with
-  | Some s => (txid s, pageN s, lenN (dbfile s), chk s =? fl (N.lxor (N.lxor 21 92) 33)) = (3, 3, 3, true)
+  | Some s => (txid s, pageN s, lenN (dbfile s), chk s =? fl (N.lxor (N.lxor 21 92) 33)) = (4, 3, 3, true)
   | None => False
   end.
 Proof.
   cbn zeta. split; [|vm_compute; reflexivity].
   Ltac in_cases := let H := fresh in intros ? ? H; cbn [In] in H;
     repeat (destruct H as [H|H]; [inversion H; subst; cbn; split; [lia|reflexivity]|]); destruct H.
+  Ltac acts_ok := repeat constructor; cbn; lia.
   cbn [wf_hist wf_step].
-  split. { split; [constructor|]. split; [intros ? ? []|in_cases]. }
+  split. { split; [constructor|]. split; [intros ? ? []|acts_ok]. }
   intros s1 E1. vm_compute in E1. inversion E1; subst s1; clear E1.
-  split. { split; [repeat constructor; cbn; intuition discriminate|]. split; in_cases. }
+  split. { split; [repeat constructor; cbn; intuition discriminate|]. split; [in_cases|acts_ok]. }
   intros s2 E2. vm_compute in E2. inversion E2; subst s2; clear E2.
-  split. { split; [constructor|]. split; [intros ? ? []|in_cases]. }
+  split. { split; [constructor|]. split; [intros ? ? []|acts_ok]. }
   intros s3 E3. vm_compute in E3. inversion E3; subst s3; clear E3.
-  split; [exact I|]. intros s4 E4. exact I.
+  split. { split; [constructor|]. split; [intros ? ? []|acts_ok]. }
+  intros s4 E4. vm_compute in E4. inversion E4; subst s4; clear E4.
+  split; [exact I|]. intros s5 E5. exact I.
 Qed.
